@@ -151,3 +151,10 @@ Inductive wop := WSet (k v : bytes) | WDelete (k : bytes).
 Definition wop_ops (o : wop) : list fsop :=
   match o with WSet k v => set_ops_os (sanitize k) v | WDelete k => [Remove (sanitize k)] end.
 Definition writes_ops (ws : list wop) : list fsop := flat_map wop_ops ws.
+
+(** ---- two writes at the same time ----
+    [merge l a b]: l is an interleaving of the operation sequences a and b (each in its own order). *)
+Inductive merge {A} : list A -> list A -> list A -> Prop :=
+| merge_nil : merge [] [] []
+| merge_l x l a b : merge l a b -> merge (x :: l) (x :: a) b
+| merge_r x l a b : merge l a b -> merge (x :: l) a (x :: b).
